@@ -90,6 +90,8 @@ class index:
         if len(self._states) > 0:
             self.working_phil = self._states.pop()
             self.rebuild_index()
+            self._phil_has_changed = True
+            self.params = None
             return True
         return False
 
@@ -100,6 +102,8 @@ class index:
         else:
             self.working_phil = self._states[index].fetch()
             self.rebuild_index()
+            self._phil_has_changed = True
+            self.params = None
             return True
         return False
 
